@@ -184,6 +184,11 @@ func (s *reportSim) RunCycle() int {
 		return 0
 	}
 
+	// a battle between several warriors is over once a single one is left
+	if s.warriorCount > 1 && s.warriorLivingCount < 2 {
+		return 0
+	}
+
 	if s.warriorIndex == 0 {
 		s.Report(Report{Type: CycleStart, Cycle: int(s.cycleCount)})
 	}
